@@ -20,7 +20,7 @@ RUN_WALL_WATCHDOG_S = 600.0
 CALL_WALL_WATCHDOG_S = 240.0
 
 TIERS = {
-    "quick":    {"runs": 3000, "chunk": 4, "wall_cap_s": 80, "max_ops": 24, "ilp_share": 0.06, "b_max": 150000,
+    "quick":    {"runs": 4200, "chunk": 4, "wall_cap_s": 80, "max_ops": 24, "ilp_share": 0.06, "b_max": 150000,
                  "det_sample_min": 8, "det_sample_frac": 0.01, "max_reports": 3, "shrink_candidates": 120},
     "thorough": {"runs": 30000, "chunk": 8, "wall_cap_s": 1700, "max_ops": 40, "ilp_share": 0.10, "b_max": 400000,
                  "det_sample_min": 24, "det_sample_frac": 0.003, "max_reports": 4, "shrink_candidates": 300,
@@ -188,7 +188,7 @@ def _gen_call(r, pool, cfg, p_fault, focus=None):
                 op["kwargs"]["partition_difference"] = r.choice([1, 1, 2, 3, 0])    # 0 is a natural refusal
         if algo in ("cg", "dp", "ilp"):
             # objective objects are caller-owned and SHARED by all calls of the history that name them
-            op["kwargs"]["objective"] = r.choice(["diff", "max", "min"] + (["kmin:2", "kmax:2", "kmin:3", "kmax:3", "kmin:1"] if algo != "cg" else []))
+            op["kwargs"]["objective"] = r.choice(["diff", "max", "min"] + (["kmin:2", "kmax:2", "kmin:3", "kmax:3", "kmin:1"] if algo != "cg" or r.random() < 0.25 else []))
         if algo == "cg" and n > 8:
             op["kwargs"]["switches"] = [True, True, False, True]
         elif algo == "cg" and r.random() < 0.4:
